@@ -1241,3 +1241,5 @@ def run(chk, tier):
     chk.guard('C09.k', lambda: c09.rule_tentative_objects(chk, prog, tier))     # the size and alignment a tentative / redeclared object is finally defined with
     from props import c16
     chk.guard('C16.c', lambda: c16.rule_stringkey(chk, prog, tier))      # string literal objects: distinct literals get distinct storage
+    from props import c04
+    chk.guard('C04.d', lambda: c04.rule_cast_arms(chk, prog, tier))      # the stored bytes of a floating object initialised from an integer constant: one rounding, to the object's type
